@@ -56,9 +56,15 @@ func Build(idx int, spec scn.DocSpec) *Doc {
 			case "t":
 				n.Kind = xpath.TextNode
 				n.Data = s.V
+				if spec.TextName {
+					n.Local = s.V
+				}
 			default:
 				n.Kind = xpath.CommentNode
 				n.Data = s.V
+				if spec.TextName {
+					n.Local = s.V
+				}
 			}
 			parent.Children = append(parent.Children, n)
 			d.add(n)
@@ -76,6 +82,15 @@ func Build(idx int, spec scn.DocSpec) *Doc {
 	build(d.Root, spec.C)
 	for _, n := range d.Nodes {
 		n.value = computeValue(n)
+		if spec.ShallowValue && (n.Kind == xpath.ElementNode || n.Kind == xpath.RootNode) {
+			var b strings.Builder
+			for _, c := range n.Children {
+				if c.Kind == xpath.TextNode {
+					b.WriteString(strings.TrimSpace(c.Data))
+				}
+			}
+			n.value = b.String()
+		}
 	}
 	return d
 }
